@@ -1,9 +1,12 @@
 // ===================================================================================================
 // concat!(members..): contract template body.  Handler bodies are extracted from /repo/src/concat.rs:
 // the subscription closure, the sink talkback, the `next` closure and the member handler.
-// Text parameter: $NCOND, the member-count case this unit covers.
+// Text parameters: $NCOND, the member-count case this unit covers; $SINKTB, the closure that is the sink's
+// talkback in that case (`sink_talkback`, or `empty_talkback` when there are no members); $SKIP, the other one.
 // ===================================================================================================
 //@ignore ctor = let sources = Vec::from(sources).into_iter().map(|s| s.into()).collect(); Tok_concat {}
+//@skip $SKIP
+//@token empty_talkback => Tok_sink_talkback {}
 //@heap Heap
 //@tp T
 //@celltp
@@ -12,8 +15,8 @@
 pub struct G<T> { pub dn: DnLink<T>, pub ups: Seq<UpLink<T>>, pub mdata: Seq<Seq<T>>, pub cat: Seq<T> }
 pub struct Cap { pub n: usize, pub pullable: bool }
 pub struct Heap {
-    pub i: usize, pub source_talkback: Option<UpTb>, pub got_pull: bool, pub next_ref: Option<Tok_next>,
-    pub alloc_i: bool, pub alloc_source_talkback: bool, pub alloc_got_pull: bool, pub alloc_next_ref: bool,
+    pub i: usize, pub source_talkback: Option<UpTb>, pub got_pull: bool, pub next_ref: Option<Tok_next>, pub disposed: bool,
+    pub alloc_i: bool, pub alloc_source_talkback: bool, pub alloc_got_pull: bool, pub alloc_next_ref: bool, pub alloc_disposed: bool,
 }
 #[derive(Clone, Copy)] pub struct Tok_sink_talkback {}
 #[derive(Clone, Copy)] pub struct Tok_source_talkback {}
@@ -22,11 +25,13 @@ pub struct Heap {
 //@cell source_talkback: Option<UpTb> = swap_option
 //@cell got_pull: bool = atomic
 //@cell next_ref: Option<Tok_next> = swap_option
+//@cell disposed: bool = atomic
 
 pub open spec fn cap_ok(c: Cap) -> bool { $NCOND }
 pub open spec fn g_init<T>(c: Cap) -> G<T> { G { dn: dn_init(), ups: Seq::new(c.n as nat, |j: int| up_init::<T>()), mdata: Seq::new(c.n as nat, |j: int| Seq::<T>::empty()), cat: Seq::empty() } }
-pub open spec fn none_alloc(h: Heap) -> bool { !h.alloc_i && !h.alloc_source_talkback && !h.alloc_got_pull && !h.alloc_next_ref }
-pub open spec fn all_alloc(h: Heap) -> bool { h.alloc_i && h.alloc_source_talkback && h.alloc_got_pull && h.alloc_next_ref }
+pub open spec fn none_alloc(h: Heap) -> bool { !h.alloc_i && !h.alloc_source_talkback && !h.alloc_got_pull && !h.alloc_next_ref && !h.alloc_disposed }
+/// every cell the subscription uses is its own: the four cells of the member machinery, or (no members) the disposal flag
+pub open spec fn all_alloc(h: Heap) -> bool { (h.alloc_i && h.alloc_source_talkback && h.alloc_got_pull && h.alloc_next_ref) || h.alloc_disposed }
 #[verifier::external_body] pub fn fresh_heap() -> (h: Heap) ensures none_alloc(h) { unimplemented!() }
 
 /// concatenation of the members' data in member order
@@ -75,9 +80,9 @@ pub open spec fn cur<T>(h: Heap, g: G<T>) -> UpLink<T> { g.ups[h.i as int] }
 pub open spec fn inv_safe<T>(h: Heap, g: G<T>, c: Cap) -> bool {
     &&& cap_ok(c)
     &&& g.ups.len() == c.n
-    &&& h.i <= c.n
-    &&& h.next_ref is Some
-    &&& (g.dn.phase != Dn::NotGreeted ==> h.source_talkback is Some)
+    &&& (c.n > 0 ==> h.i <= c.n)
+    &&& (c.n > 0 ==> h.next_ref is Some)
+    &&& (c.n > 0 && g.dn.phase != Dn::NotGreeted ==> h.source_talkback is Some)
     &&& (h.i < c.n && up_greeted(cur(h, g).phase) ==> h.source_talkback == Some(UpTb { i: h.i }))
 }
 pub open spec fn inv_seq<T>(h: Heap, g: G<T>, c: Cap) -> bool {
@@ -87,14 +92,16 @@ pub open spec fn inv_seq<T>(h: Heap, g: G<T>, c: Cap) -> bool {
 }
 pub open spec fn inv_proto<T>(h: Heap, g: G<T>, c: Cap) -> bool {
     &&& (h.i < c.n ==> cur(h, g).phase != Up::Idle && cur(h, g).phase != Up::EndedBySelf)
-    &&& (g.dn.phase == Dn::NotGreeted <==> h.i == 0 && h.i < c.n && cur(h, g).phase == Up::Subscribing)
-    &&& (g.dn.phase == Dn::Live ==> h.i < c.n && (cur(h, g).phase == Up::Live || (cur(h, g).phase == Up::Subscribing && h.i > 0)))
-    &&& (g.dn.phase == Dn::EndedByUs <==> h.i == c.n || (h.i < c.n && cur(h, g).phase == Up::ErroredBySelf))
-    &&& (g.dn.phase == Dn::EndedBySink <==> h.i < c.n && cur(h, g).phase == Up::EndedByUs)
+    &&& (c.n > 0 ==> (g.dn.phase == Dn::NotGreeted <==> h.i == 0 && h.i < c.n && cur(h, g).phase == Up::Subscribing))
+    &&& (c.n > 0 ==> (g.dn.phase == Dn::Live ==> h.i < c.n && (cur(h, g).phase == Up::Live || (cur(h, g).phase == Up::Subscribing && h.i > 0))))
+    &&& (c.n > 0 ==> (g.dn.phase == Dn::EndedByUs <==> h.i == c.n || (h.i < c.n && cur(h, g).phase == Up::ErroredBySelf)))
+    &&& (c.n > 0 ==> (g.dn.phase == Dn::EndedBySink <==> h.i < c.n && cur(h, g).phase == Up::EndedByUs))
     &&& (g.dn.phase == Dn::NotGreeted ==> g.dn.pulls == 0 && g.dn.data.len() == 0)
+    // no members: the sink is greeted and completed inside the subscribing call, unless it disposes from inside its greeting
+    &&& (c.n == 0 ==> g.dn.phase != Dn::NotGreeted && (g.dn.phase == Dn::EndedBySink <==> h.disposed) && g.dn.data.len() == 0)
 }
 pub open spec fn inv_carry<T>(h: Heap, g: G<T>, c: Cap) -> bool {
-    h.got_pull <==> g.dn.pulls > 0
+    c.n > 0 ==> (h.got_pull <==> g.dn.pulls > 0)
 }
 pub open spec fn inv_term<T>(h: Heap, g: G<T>, c: Cap) -> bool {
     &&& g.dn.terms == (if g.dn.phase == Dn::EndedByUs { 1nat } else { 0nat })
@@ -133,7 +140,7 @@ pub open spec fn mono<T>(a: Heap, ga: G<T>, b: Heap, gb: G<T>) -> bool {
     &&& a.i <= b.i
     &&& (all_alloc(a) ==> all_alloc(b))
 }
-pub open spec fn sink_rel<T>(a: Heap, ga: G<T>, b: Heap, gb: G<T>, c: Cap) -> bool { quiet(gb) }
+pub open spec fn sink_rel<T>(a: Heap, ga: G<T>, b: Heap, gb: G<T>, c: Cap) -> bool { quiet(gb) && (c.n == 0 ==> gb.dn.terms == ga.dn.terms) }
 pub open spec fn up_rel<T>(i: int, a: Heap, ga: G<T>, b: Heap, gb: G<T>, c: Cap) -> bool { quiet(ga) ==> quiet(gb) }
 pub open spec fn sub_rel<T>(i: int, a: Heap, ga: G<T>, b: Heap, gb: G<T>, c: Cap) -> bool { true }
 pub open spec fn sub_pre<T>(i: int, h: Heap, g: G<T>, c: Cap, m: Message<Never, Tok_source_talkback>) -> bool {
@@ -149,7 +156,7 @@ pub open spec fn upsrc_gate<T>(s: UpSrc, k: int, h: Heap, g: G<T>, c: Cap, m: Me
 
 /// the state in which `next` is entered: the cursor points at a member that is not subscribed yet
 pub open spec fn pre_next<T>(h: Heap, g: G<T>, c: Cap) -> bool {
-    &&& g.ups.len() == c.n && h.i <= c.n && quiet(g)
+    &&& c.n > 0 && g.ups.len() == c.n && h.i <= c.n && quiet(g)
     &&& inv_seq(h, g, c) && inv_term(h, g, c) && inv_data(h, g, c)
     &&& (h.i < c.n ==> cur(h, g) == up_init::<T>())
     &&& (h.i == 0 ==> g.dn == dn_init::<T>() && !h.got_pull)
@@ -245,11 +252,11 @@ pub fn concat__sink_talkback<T>(h: &mut Heap, g: &mut Ghost<G<T>>, c: &Cap, mess
         sink_rel(*old(h), old(g)@, *final(h), final(g)@, *c),
         (message is Terminate || message is Error) ==> (forall|j: int| 0 <= j < final(g)@.ups.len() ==> (#[trigger] final(g)@.ups[j]).phase != Up::Live), /* @C04 disposal reaches the upstream */
         (message is Terminate || message is Error) ==> final(g)@.dn.phase == Dn::EndedBySink, /* @C03 no termination back to a sink that disposed */
-        message is Error ==> final(h).i < c.n && final(g)@.ups[final(h).i as int].term_err == Some(message->Error_0), /* @C04 a sink Error goes upstream as that Error */
+        message is Error && c.n > 0 ==> final(h).i < c.n && final(g)@.ups[final(h).i as int].term_err == Some(message->Error_0), /* @C04 a sink Error goes upstream as that Error */
 {
-    let source_talkback = Cell_source_talkback {}; let got_pull = Cell_got_pull {};
+    let source_talkback = Cell_source_talkback {}; let got_pull = Cell_got_pull {}; let disposed = Cell_disposed {};
     proof { g@ = G { dn: dn_recv(g@.dn, message), ..g@ }; }
-    BODY!("sink_talkback");
+    BODY!("$SINKTB");
 }
 
 /// Every history of one subscription with conformant peers is an execution of `world`.
